@@ -15,6 +15,7 @@ type VerifVpnCmd struct {
 	Seq    int
 	Parsed string
 	Ref    []string
+	Sub    []string // parsed text of subcommands (IOS: peer is found there)
 }
 
 type VerifVpnCall struct {
@@ -32,6 +33,9 @@ func VerifMatchCryptoMap(a, b []VerifVpnCmd) (calls []VerifVpnCall, aborted bool
 		var result []*cmd
 		for _, v := range l {
 			c := &cmd{name: v.Name, seq: v.Seq, parsed: v.Parsed, ref: v.Ref}
+			for _, p := range v.Sub {
+				c.sub = append(c.sub, &cmd{parsed: p, subCmdOf: c})
+			}
 			id[c] = v.ID
 			result = append(result, c)
 		}
